@@ -734,6 +734,55 @@ impl<'tcx> Cx<'tcx> {
             return;
         }
         let t = tcx.type_of(did).instantiate_identity().skip_norm_wip();
+        if let ty::Tuple(elems) = t.kind() {
+            // a tuple of integers written as a literal: `const BP: (u8, u8) = (5, 6);`
+            if elems.is_empty() || !elems.iter().all(|e| e.is_integral() || e.is_bool()) || !did.is_local() {
+                return;
+            }
+            let body = tcx.mir_for_ctfe(did);
+            let mut vals: Option<Vec<String>> = None;
+            for bbd in body.basic_blocks.iter() {
+                for st in bbd.statements.iter() {
+                    if let StatementKind::Assign(b) = &st.kind {
+                        if b.0.local.as_usize() != 0 || !b.0.projection.is_empty() {
+                            continue;
+                        }
+                        if let Rvalue::Aggregate(k, ops) = &b.1 {
+                            if matches!(&**k, AggregateKind::Tuple) {
+                                let mut vs = Vec::new();
+                                for o in ops.iter() {
+                                    if let Operand::Constant(c) = o {
+                                        if let Some(si) = c.const_.try_to_scalar_int() {
+                                            let sz = si.size();
+                                            vs.push(match c.const_.ty().kind() {
+                                                ty::Int(_) => format!("{}", si.to_int(sz)),
+                                                _ => format!("{}", si.to_uint(sz)),
+                                            });
+                                        }
+                                    }
+                                }
+                                if vs.len() == ops.len() {
+                                    vals = Some(vs);
+                                }
+                            }
+                        }
+                    }
+                }
+            }
+            if let Some(vs) = vals {
+                let (file, l0, _) = self.loc(tcx.def_span(did));
+                let _ = write!(
+                    out,
+                    "{{\"k\":\"const\",\"id\":{},\"ty\":{},\"v\":[{}],\"file\":{},\"line\":{}}}\n",
+                    esc(&self.path(did)),
+                    esc(&self.ty(t)),
+                    vs.join(","),
+                    esc(&file),
+                    l0
+                );
+            }
+            return;
+        }
         if !(t.is_integral() || t.is_bool()) {
             return;
         }
